@@ -30,6 +30,20 @@
 (* Options: ia include_args [given, names], ir include_result, at explicit *)
 (* action_type, fx what the body does ("ret" | "raise"), bare (@log_call   *)
 (* without parentheses).                                                   *)
+(*                                                                         *)
+(* Target kind tk: WHAT log_call is given.                                 *)
+(*   "plain"    the function itself (sig is its signature)                 *)
+(*   "inject"   a functools.wraps wrapper w taking only its own *args and **kwargs, which calls *)
+(*              the function with one more leading argument                *)
+(*   "renamed"  a functools.wraps wrapper with its own explicit parameter  *)
+(*              list: the function's, every parameter renamed w_<name>     *)
+(*   "fewer"    the same without the parameters that have defaults         *)
+(*   "stacked"  the function already decorated with log_call               *)
+(* OwnSig(tk, sig) is the signature of the callable log_call is given: the *)
+(* wrapper binds and logs against THAT (inspect.signature would follow     *)
+(* __wrapped__ to the function underneath, whose parameters are not the    *)
+(* ones the caller addresses).  Inner(...) is the binding the function     *)
+(* underneath finally sees (or TypeError raised inside the callable).      *)
 (***************************************************************************)
 EXTENDS Naturals, Sequences, FiniteSets, TLC
 
@@ -42,9 +56,10 @@ CONSTANTS MaxParams,      \* longest signature with ordinary names only
           HazPos, HazKw,  \* bounds of the calls of such a signature
           Extra,          \* keyword names used in calls besides the parameters' names
           FullOptParams,  \* signatures up to this length (hazardous name: only self) are combined with EVERY option
-          FullOptKw       \* ... for calls with at most this many keywords
+          FullOptKw,      \* ... for calls with at most this many keywords
+          KindParams      \* ordinary-name signatures up to this length are also explored behind the other target kinds
 
-VARIABLES cs,    \* the case: [sig, call, opt]   (never changes)
+VARIABLES cs,    \* the case: [sig, tk, call, opt]   (never changes)
           pc,    \* control state of the decorator / wrapper
           obs    \* observable events so far
 vars == <<cs, pc, obs>>
@@ -79,10 +94,12 @@ IsHaz(sig) == \E i \in DOMAIN sig : sig[i].n \in Hazard
 
 ParamNames(sig) == {sig[i].n : i \in DOMAIN sig}
 MethOK(sig, np) == Len(sig) >= 1 /\ sig[1].n = "self" /\ sig[1].k \in {"PO", "PK"} /\ np >= 1
-Calls(sig) == {[np |-> p, kw |-> K, meth |-> m] :
+\* calls of a callable with signature sig, keyword names drawn from pool
+CallsP(sig, pool) == {[np |-> p, kw |-> K, meth |-> m] :
                  p \in 0..(IF IsHaz(sig) THEN HazPos ELSE MaxPos),
-                 K \in {S \in SUBSET (ParamNames(sig) \cup Extra) : Cardinality(S) <= (IF IsHaz(sig) THEN HazKw ELSE MaxKw)},
+                 K \in {S \in SUBSET pool : Cardinality(S) <= (IF IsHaz(sig) THEN HazKw ELSE MaxKw)},
                  m \in BOOLEAN}
+Calls(sig) == CallsP(sig, ParamNames(sig) \cup Extra)
 NullCall(c) == c.np = 0 /\ c.kw = {}
 
 NoIa == [given |-> FALSE, names |-> {}]
@@ -189,26 +206,71 @@ NoSlash(sig) == [i \in DOMAIN sig |-> [sig[i] EXCEPT !.k = IF @ = "PO" THEN "PK"
 NamesPosOnly(sig, c) == \E i \in DOMAIN sig : sig[i].k = "PO" /\ sig[i].n \in c.kw
 
 -----------------------------------------------------------------------------
+(* Target kinds: the callable log_call is given, its own signature, and    *)
+(* the call it makes to the function underneath.                           *)
+WName(n) == CASE n = "a" -> "w_a" [] n = "b" -> "w_b" [] n = "c" -> "w_c" [] n = "d" -> "w_d" [] n = "e" -> "w_e" [] OTHER -> n
+Renamed(sig) == [i \in DOMAIN sig |-> [sig[i] EXCEPT !.n = WName(@)]]
+Required(p) == ~p.d
+InjectSig == <<[k |-> "VP", d |-> FALSE, n |-> "wargs"], [k |-> "VK", d |-> FALSE, n |-> "wkwargs"]>>
+OwnSig(tk, sig) == CASE tk = "plain" -> sig
+                     [] tk = "inject" -> InjectSig
+                     [] tk = "renamed" -> Renamed(sig)
+                     [] tk = "fewer" -> SelectSeq(Renamed(sig), Required)
+                     [] tk = "stacked" -> NoSlash(sig)       \* the stub log_call produced (its own parameter list has no "/")
+TargetKinds(sig) == {"plain"} \cup (IF ~IsHaz(sig) /\ Len(sig) <= KindParams
+                                    THEN {"inject", "renamed", "stacked"} \cup (IF \E i \in DOMAIN sig : sig[i].d THEN {"fewer"} ELSE {})
+                                    ELSE {})
+\* the call the callable makes to the function underneath, given its own binding ob of call c
+InnerCall(tk, sig, c, ob) ==
+  LET os == OwnSig(tk, sig)
+      vp == KindIdx(os, "VP")
+      vk == KindIdx(os, "VK")
+      kept(i) == tk = "renamed" \/ ~sig[i].d
+  IN CASE tk \in {"plain", "stacked"} -> c
+       [] tk = "inject" -> [c EXCEPT !.np = @ + 1]                          \* f(CONN, *wargs, **wkwargs)
+       [] OTHER -> [np |-> NPos(os) + (IF vp = 0 THEN 0 ELSE (ob[vp].hi + 1) - ob[vp].lo),        \* f(w_a, w_b, *w_c, d=w_d, **w_e)
+                    kw |-> {sig[i].n : i \in {j \in DOMAIN sig : sig[j].k = "KO" /\ kept(j)}} \cup (IF vk = 0 THEN {} ELSE ob[vk].ks),
+                    meth |-> FALSE]
+Inner(tk, sig, c) == LET own == Bind(OwnSig(tk, sig), c)
+                     IN IF own.ok THEN Bind(sig, InnerCall(tk, sig, c, own.b)) ELSE TypeErr
+\* the other kinds are explored outside the scope of F4b / F4c, without include_args (see notes/C18.md) and never as methods
+KindCallOK(tk, sig, c) == tk # "plain" => /\ ~c.meth
+                                          /\ ~NamesPosOnly(OwnSig(tk, sig), c)
+                                          /\ ~NamesPosOnly(sig, c)
+KindOpts(tk, sig, c) ==
+  IF ~Bind(OwnSig(tk, sig), c).ok THEN {DefaultOpt}
+  ELSE {DefaultOpt, [ia |-> NoIa, ir |-> FALSE, at |-> TRUE, fx |-> "ret", bare |-> FALSE]}
+       \cup (IF Inner(tk, sig, c).ok THEN {[ia |-> NoIa, ir |-> TRUE, at |-> FALSE, fx |-> "raise", bare |-> FALSE]} ELSE {})
+
+-----------------------------------------------------------------------------
 (* Part 2.  The decorator and its wrapper.                                 *)
 Logged(sig, o) == {sig[i].n : i \in {j \in DOMAIN sig : /\ sig[j].n # "self"
                                                         /\ (o.ia.given => sig[j].n \in o.ia.names)}}
 ActionType(c, o) == IF o.at THEN "given" ELSE IF c.meth THEN "module.Class.name" ELSE "module.name"
 Ev(e, what) == [e |-> e, what |-> what]
 \* what the wrapper shows around a call that binds (functions of the case only)
-StartEv(c) == [e |-> "start", type |-> ActionType(c.call, c.opt), fields |-> Logged(c.sig, c.opt)]
-EndEv(c)   == IF c.opt.fx = "ret" THEN [e |-> "end", status |-> "succeeded", result |-> c.opt.ir]     \* result logged unless include_result=False
+OS(c) == OwnSig(c.tk, c.sig)                       \* the signature the wrapper binds and logs against
+\* FALSE: the callable accepts the call but raises a TypeError (T) itself when it calls the function underneath
+InnerOK(c) == Bind(OS(c), c.call).ok => Inner(c.tk, c.sig, c.call).ok
+StartEv(c) == [e |-> "start", type |-> ActionType(c.call, c.opt), fields |-> Logged(OS(c), c.opt)]
+EndEv(c)   == IF ~InnerOK(c) THEN [e |-> "end", status |-> "failed", result |-> FALSE]
+              ELSE IF c.opt.fx = "ret" THEN [e |-> "end", status |-> "succeeded", result |-> c.opt.ir]   \* result logged unless include_result=False
               ELSE [e |-> "end", status |-> "failed", result |-> FALSE]
-RetEv(c)   == IF c.opt.fx = "ret" THEN Ev("return", "R") ELSE Ev("raise", "X")                          \* the SAME object R / X
+RetEv(c)   == IF ~InnerOK(c) THEN Ev("raise", "T")                                                      \* the callable's own TypeError
+              ELSE IF c.opt.fx = "ret" THEN Ev("return", "R") ELSE Ev("raise", "X")                     \* the SAME object R / X
 
-Init == /\ \E s \in Sigs : \E c \in Calls(s) :
-             /\ c.meth => MethOK(s, c.np)
-             /\ \E o \in Opts(s, c) : cs = [sig |-> s, call |-> c, opt |-> o]
+Init == /\ \E s \in Sigs : \E tk \in TargetKinds(s) :
+             \* (behind "inject" the keywords worth trying are the function's parameter names, not the wrapper's)
+             \E c \in (IF tk = "inject" THEN CallsP(InjectSig, ParamNames(s) \cup Extra) ELSE Calls(OwnSig(tk, s))) :
+               /\ c.meth => MethOK(s, c.np)
+               /\ KindCallOK(tk, s, c)
+               /\ \E o \in (IF tk = "plain" THEN Opts(s, c) ELSE KindOpts(tk, s, c)) : cs = [sig |-> s, tk |-> tk, call |-> c, opt |-> o]
         /\ pc = "decorate"
         /\ obs = <<>>
 
 Decorate ==
   /\ pc = "decorate"
-  /\ IF Refused(cs.sig, cs.opt)
+  /\ IF Refused(OS(cs), cs.opt)
      THEN /\ obs' = <<Ev("raise", "ValueError")>>          \* include_args names a non-parameter: refused at decoration
           /\ pc' = "done"
      ELSE /\ obs' = <<[e |-> "decorated", type |-> ActionType(cs.call, cs.opt), keeps |-> {"name", "doc", "signature"}]>>
@@ -217,7 +279,7 @@ Decorate ==
 
 Invoke ==
   /\ pc = "invoke"
-  /\ IF Bind(cs.sig, cs.call).ok
+  /\ IF Bind(OS(cs), cs.call).ok
      THEN pc' = "start" /\ obs' = obs
      ELSE pc' = "done" /\ obs' = Append(obs, Ev("raise", "TypeError"))      \* as for the undecorated function
   /\ UNCHANGED cs
@@ -230,7 +292,7 @@ Start ==
 
 Call ==
   /\ pc = "call"
-  /\ obs' = Append(obs, [e |-> "call", b |-> Bind(cs.sig, cs.call).b])
+  /\ obs' = Append(obs, [e |-> "call", b |-> Bind(OS(cs), cs.call).b])      \* the callable is called once, with the same arguments
   /\ pc' = "end"
   /\ UNCHANGED cs
 
@@ -251,12 +313,14 @@ Spec == Init /\ [][Next]_vars
 
 -----------------------------------------------------------------------------
 (* Invariants: properties of the rules, checked over the whole domain.     *)
-B == Bind(cs.sig, cs.call)
-\* the two formulations of the binding rule agree
-BindAgree == pc = "invoke" => BindSeq(cs.sig, cs.call) = B
+B == Bind(OS(cs), cs.call)
+INR == Inner(cs.tk, cs.sig, cs.call)
+\* the two formulations of the binding rule agree (on the callable's own signature and on the function's)
+BindAgree == pc = "invoke" => /\ BindSeq(OS(cs), cs.call) = B
+                              /\ B.ok => BindSeq(cs.sig, InnerCall(cs.tk, cs.sig, cs.call, B.b)) = INR
 \* a binding neither loses, duplicates nor invents an argument, keeps positional order, uses defaults only where they exist
 Conservation == (pc = "invoke" /\ B.ok) =>
-  LET sig == cs.sig
+  LET sig == OS(cs)
       c == cs.call
       b == B.b
   IN /\ DOMAIN b = DOMAIN sig
@@ -273,16 +337,23 @@ Conservation == (pc = "invoke" /\ B.ok) =>
                             /\ b[i].t = "vp" => (b[i].hi < b[i].lo \/ b[i].hi <= c.np)        \* empty, or arguments that exist
                             /\ b[i].t = "vk" => b[i].ks \subseteq c.kw
 \* a rejected call has a reason, an accepted one has none
-Rejection == pc = "invoke" => (B.ok <=> Reasons(cs.sig, cs.call) = {})
+Rejection == pc = "invoke" => (B.ok <=> Reasons(OS(cs), cs.call) = {})
 \* making positional-only parameters nameable changes the outcome only for calls that name one (scope of F4b / F4c)
-DeviationScope == (pc = "invoke" /\ ~NamesPosOnly(cs.sig, cs.call)) => Bind(NoSlash(cs.sig), cs.call) = B
+DeviationScope == (pc = "invoke" /\ ~NamesPosOnly(OS(cs), cs.call)) => Bind(NoSlash(OS(cs)), cs.call) = B
+\* the target kinds: an explicit wrapper that accepts its call always reaches the function; a stacked log_call and the plain
+\* function see the very binding the wrapper logs; the injected argument is the function's first positional parameter
+KindsOK == (pc = "invoke" /\ B.ok) =>
+             /\ cs.tk \in {"renamed", "fewer"} => INR.ok
+             /\ cs.tk \in {"plain", "stacked"} => INR = Bind(cs.sig, cs.call) /\ INR = B
+             /\ (cs.tk = "inject" /\ INR.ok /\ NPos(cs.sig) >= 1) => INR.b[1] = V("pos", 1, 1, {})
+             /\ cs.tk # "plain" => (~cs.opt.ia.given /\ ~cs.call.meth)
 \* the wrapper: what is logged
 LoggedOK == pc = "start" =>
-            LET L == Logged(cs.sig, cs.opt)
+            LET L == Logged(OS(cs), cs.opt)
             IN /\ "self" \notin L
-               /\ L \subseteq ParamNames(cs.sig)
-               /\ cs.opt.ia.given => L = (cs.opt.ia.names \cap ParamNames(cs.sig)) \ {"self"}
-               /\ ~cs.opt.ia.given => L = ParamNames(cs.sig) \ {"self"}
+               /\ L \subseteq ParamNames(OS(cs))
+               /\ cs.opt.ia.given => L = (cs.opt.ia.names \cap ParamNames(OS(cs))) \ {"self"}
+               /\ ~cs.opt.ia.given => L = ParamNames(OS(cs)) \ {"self"}
 \* the wrapper: shape of every finished observation
 Evs(e) == {i \in DOMAIN obs : obs[i].e = e}
 Shape == pc = "done" =>
@@ -293,8 +364,9 @@ Shape == pc = "done" =>
        /\ obs[3].b = B.b                                                          \* the function sees Python's binding
        /\ obs[2].type = obs[1].type
        /\ (obs[4].status = "succeeded") <=> (obs[5] = Ev("return", "R"))
-       /\ (obs[4].status = "failed") <=> (obs[5] = Ev("raise", "X"))
-       /\ obs[4].result <=> (cs.opt.ir /\ cs.opt.fx = "ret")
+       /\ (obs[4].status = "failed") <=> (obs[5] \in {Ev("raise", "X"), Ev("raise", "T")})
+       /\ (obs[5] = Ev("raise", "T")) <=> ~INR.ok          \* (here B.ok)
+       /\ obs[4].result <=> (cs.opt.ir /\ cs.opt.fx = "ret" /\ INR.ok)
 TypeOK == /\ pc \in {"decorate", "invoke", "start", "call", "end", "return", "done"}
           /\ Len(obs) <= 5
 
@@ -304,15 +376,19 @@ Emit == pc = "done" =>
                     <<cs.call.np, cs.call.kw, cs.call.meth>>,
                     <<cs.opt.ia.given, cs.opt.ia.names, cs.opt.ir, cs.opt.at, cs.opt.fx, cs.opt.bare>>,
                     IF B.ok THEN <<[i \in DOMAIN B.b |-> <<B.b[i].t, B.b[i].lo, B.b[i].hi, B.b[i].ks>>]>> ELSE <<>>,
-                    Reasons(cs.sig, cs.call),
+                    Reasons(OS(cs), cs.call),
                     \* the deviation model for calls in the scope of F4b / F4c
-                    IF NamesPosOnly(cs.sig, cs.call)
-                    THEN LET D == Bind(NoSlash(cs.sig), cs.call)
+                    IF NamesPosOnly(OS(cs), cs.call)
+                    THEN LET D == Bind(NoSlash(OS(cs)), cs.call)
                          IN IF D.ok THEN <<[i \in DOMAIN D.b |-> <<D.b[i].t, D.b[i].lo, D.b[i].hi, D.b[i].ks>>]>> ELSE <<"TypeError">>
                     ELSE <<"-">>,
                     [i \in DOMAIN obs |-> IF obs[i].e = "call" THEN [e |-> "call"] ELSE obs[i]],
                     \* what a binding call shows (used by the harness for the deviation model when the spec says TypeError)
-                    <<StartEv(cs), EndEv(cs), RetEv(cs)>>>>))
+                    <<StartEv(cs), EndEv(cs), RetEv(cs)>>,
+                    \* target kind, the callable's own signature, the binding the function underneath sees (<<>>: TypeError / not reached)
+                    cs.tk,
+                    [s \in DOMAIN OS(cs) |-> <<OS(cs)[s].k, OS(cs)[s].d, OS(cs)[s].n>>],
+                    IF INR.ok THEN <<[i \in DOMAIN INR.b |-> <<INR.b[i].t, INR.b[i].lo, INR.b[i].hi, INR.b[i].ks>>]>> ELSE <<>>>>))
 
 \* deliberately wrong variants, which TLC must reject (vacuity guards; MC_LogCall_Broken1.cfg / MC_LogCall_Broken2.cfg)
 BrokenNoDupCheck  == pc = "invoke" => BindSeqV(cs.sig, cs.call, FALSE) = B     \* a keyword may overwrite a filled slot
